@@ -1,4 +1,5 @@
 """Correspondence engine: run one history on the implementation and on the Lean model, compare."""
+import re
 import json, os, sys, time as _time
 sys.path.insert(0, os.path.dirname(os.path.abspath(__file__)))
 import impl as I
@@ -304,8 +305,27 @@ class Session:
         sm = self.model.snap()
         if self.aio:
             sm = sm.replace('!,paused', ',paused')
+        si, sm = _sort_conns(si), _sort_conns(sm)
         if si != sm:
             raise Divergence(self.index, ev, 'state', si, sm)
+
+
+_CONN_RE = re.compile(r'c(\d+)\{[^}]*\}')
+
+
+def _sort_conns(snap):
+    """connection records in a canonical order (the implementation lists them by id, the model in the order they were opened)"""
+    found = list(_CONN_RE.finditer(snap))
+    if len(found) < 2:
+        return snap
+    ordered = sorted((m.group(0) for m in found), key=lambda t: int(t[1:t.index('{')]))
+    out, pos = [], 0
+    for m, t in zip(found, ordered):
+        out.append(snap[pos:m.start()])
+        out.append(t)
+        pos = m.end()
+    out.append(snap[pos:])
+    return ''.join(out)
 
 
 def Mn_add(session, prop, clause, detail):
